@@ -141,6 +141,10 @@ class HAPServerProtocol(asyncio.Protocol):
         if queued is not None and queued.get(HAP_REPR_VALUE) != value:
             del self._event_queue[(aid, iid)]
 
+    def discard_event(self, aid: int, iid: int) -> None:
+        """Drop the queued event of a characteristic (the client unsubscribed)."""
+        self._event_queue.pop((aid, iid), None)
+
     def send_response(self, response: HAPResponse) -> None:
         """Send a HAPResponse object."""
         body_len = len(response.body)
